@@ -1,5 +1,6 @@
 // C06 driver, linked against the libocca built from /repo with -DLIBOCCA_OCCA_VERIF.
 //   driver <mode> key   <props.json> <source> [<props.json> <source> ...]   cache key of each configuration (no build)
+//   driver <mode> keyfile <props.json> <source> ...                          as key, but the source hash is occa::hashFile(<source>), as device::buildKernel computes it
 //   driver <mode> build <props.json> <source> [<props.json> <source> ...]   key, then build + run each configuration in order
 // With OCCA_VERIF_HASHLOG set, the hook in src/utils/hash.cpp appends the hash trace; a line "M <n>" is appended by this
 // driver before configuration n so that the trace can be split.
@@ -26,6 +27,7 @@ static void printKey(const char *tag, int n, const occa::hash_t &h) {
 int main(int argc, char **argv) {
   if (argc < 5) { fprintf(stderr, "usage: driver <mode> key|build (<props.json> <source>)+\n"); return 2; }
   const bool build = !strcmp(argv[2], "build");
+  const bool fromFile = !strcmp(argv[2], "keyfile");
   occa::device dev(std::string("{mode: '") + argv[1] + "'}");
   for (int a = 3, n = 0; a + 1 < argc; a += 2, ++n) {
     const std::string src = slurp(argv[a + 1]);
@@ -33,7 +35,7 @@ int main(int argc, char **argv) {
       occa::json props = occa::json::parse(slurp(argv[a]));
       mark(n);
       occa::json kernelProps; occa::hash_t key;
-      dev.setupKernelInfo(props, occa::hash(src), kernelProps, key);
+      dev.setupKernelInfo(props, fromFile ? occa::hashFile(argv[a + 1]) : occa::hash(src), kernelProps, key);
       mark(-1);
       printKey("KEY", n, key);
       if (!build) continue;
